@@ -213,3 +213,12 @@ package utils
 //@ func IntToRune
 //@   ensures (0 <= i && i <= 9) ==> result == i + '0'
 //@   ensures !(0 <= i && i <= 9) ==> result == 'F'
+
+// ---------------------------------------------------------------- Reed-Solomon encoder (shape; the algebra is a bounded stand-in, C17)
+//@ func (*ReedSolomonEncoder).Encode
+//@   abstract
+//@   attr fresh_result eccCount 0 rs.gf.Size
+//@   requires rs != nil && rs.gf != nil && 0 <= eccCount && eccCount < rs.gf.Size
+//@   requires forall i int :: 0 <= i && i < len(data) ==> 0 <= data[i] && data[i] < rs.gf.Size
+//@   ensures fresh(result) && len(result) == eccCount
+//@   ensures forall i int :: 0 <= i && i < eccCount ==> 0 <= result[i] && result[i] < rs.gf.Size
